@@ -31,7 +31,10 @@ type String struct {
 
 var (
 	// Zero is a String of zero length.
-	Zero String = String{r: []rune{}, gc: new([]int)}
+	//
+	// Its grapheme cache is initialized (non-nil and empty) so that no
+	// operation on this shared value ever needs to fill it in lazily.
+	Zero String = String{r: []rune{}, gc: &[]int{}}
 )
 
 // Add adds two strings together and returns the result. The original String is
